@@ -202,9 +202,9 @@ def replay(path):
 
 META = {
     'title': 'The Raft log recovers a durable, gap-free prefix after a crash',
-    'level': 'proof',
-    'technique': 'Rocq: executable model of the IO task (one step per select! arm) over a two-layer store; the statement is refuted on the model by vm_compute witnesses that replay on the real code (conflict truncation at or below durable_index), and proved for all schedules and crash points of runs whose conflict truncations stay above durable_index and pending_max; differential check of the model against the real BufferedRaftLog + IO thread over the in-memory, File and RocksDB stores with a crash point after every call',
-    'text': "Rocq: C18_refuted_durable_lost / C18_refuted_gap / C18_refuted_resurrection_power_loss (the faithful model violates each part of the statement; the same inputs violate it on the real code) and C18_safe_partial (for every sequence of caller operations and IO steps in which conflict truncations happen above durable_index and the IO task's pending watermark and commands are consumed by the recv arm before another arm runs, after a crash at any step boundary in either mode the recovered log is gap-free, contains every live entry at or below durable_index with identical content, and is contained in the live log). The property itself is evaluated on the implementation's outputs at every crash point.",
-    'note': "Trusted: Coq kernel, hand model LogCrash/BufLog (validated by the probe), the probe's idle detection. The unchanged tree violates the property (known_findings.json, three classes, all caused by durable_index not being lowered by a conflict truncation).",
+    'level': 'check',
+    'technique': 'Rocq: executable model of the IO task (one step per select! arm) over a two-layer store; the statement is REFUTED on the model by vm_compute witnesses that replay on the real code (conflict truncation at or below durable_index), and the mechanism is proved for all states; differential check of the model against the real BufferedRaftLog + IO thread over the in-memory, File and RocksDB stores with a crash point after every call; the property itself is evaluated on the implementation outputs at every crash point',
+    'text': "Rocq: C18_refuted_durable_lost / C18_refuted_gap / C18_refuted_resurrection_power_loss (the faithful model violates each part of the statement; the same inputs violate it on the real code: known findings) and, for ALL states, C18_truncation_keeps_durable_partial (a conflict truncation and its ReplaceRange never lower durable_index), C18_flush_short_circuit_partial (flush() is the identity when durable_index >= max_index), C18_io_never_writes_at_or_below_durable_partial (no IO arm writes an entry at or below durable_index). The positive statement (runs whose truncations stay above durable_index and pending_max) is written down in proofs/C18.v but NOT proved; level is therefore 'check': on such runs the property is only tested (every generated case without a truncation at or below durable_index satisfies it on the real code at every crash point).",
+    'note': "Trusted: Coq kernel, hand model LogCrash/BufLog (validated by the probe), the probe's idle detection (the oracle does not depend on it: what the log reports is read before the crash copy is taken). The unchanged tree violates the property (known_findings.json, three classes, one cause: durable_index is not lowered by a conflict truncation). Two further gap windows exist in the model only (purge_race_gap, replace_race_gap: an IO arm running while the caller is blocked on a done channel); they need the proposed step-wise hook to be replayed.",
     'design_ref': 'DESIGN.md §4 C18',
 }
